@@ -15,6 +15,10 @@
 (*  "await"   AsyncWaitForAcknowledgments::poll (send command | poll the    *)
 (*            completion channel, registering the waker | park) x the       *)
 (*            Writer completing the wait                                    *)
+(*  "nkstream", "nkbare"  the same receive thread x the async stream of a  *)
+(*            no_key DataReader: a wrapper that polls the keyed stream     *)
+(*            again (in the same poll) whenever it yields a dispose, which *)
+(*            an un-keyed application is never shown; items Kinds[i]       *)
 (* Thread 0 = the producer side (receive thread / writer thread), thread 1  *)
 (* = the application.  TLC explores every interleaving; `trail` records the *)
 (* schedule so that each behaviour is replayed on the two real threads      *)
@@ -25,6 +29,7 @@ EXTENDS Integers, Sequences, FiniteSets, TLC, Json
 CONSTANTS Scenario,   \* "stream" | "mio6" | "mio8" | "awrite" | "await"
           N,          \* samples to inject / writes beyond the queue capacity
           Cap,        \* capacity of the command queue (16 in the code)
+          Kinds,      \* "nkstream"/"nkbare": kind of the i-th item, "V" value | "D" dispose (Len >= N)
           GenK
 
 VARIABLES
@@ -41,11 +46,19 @@ VARIABLES
 
 vars == <<pc0, pc1, ins, del, waker, waker2, wakeFlag, r8, n6, q, sent, cmdSent, signal, finished, trail>>
 
-Reader == Scenario \in {"stream", "mio6", "mio8"}
+\* item kinds for the configurations (a cfg file cannot write a tuple)
+KindsNone == <<>>
+KindsDV == <<"D", "V">>
+KindsVD == <<"V", "D">>
+KindsVDV == <<"V", "D", "V">>
+KindsDDV == <<"D", "D", "V">>
+KindsVDDV == <<"V", "D", "D", "V">>
+Reader == Scenario \in {"stream", "mio6", "mio8", "nkstream", "nkbare"}
+NoKey == Scenario \in {"nkstream", "nkbare"}
 
 Init ==
   /\ pc0 = IF Reader THEN "r_inject" ELSE "w_pop"
-  /\ pc1 = CASE Scenario = "stream" -> "a_poll" [] Scenario \in {"mio6", "mio8"} -> "c_wait"
+  /\ pc1 = CASE Scenario \in {"stream", "nkstream", "nkbare"} -> "a_poll" [] Scenario \in {"mio6", "mio8"} -> "c_wait"
              [] Scenario = "awrite" -> "aw_poll" [] Scenario = "await" -> "e_poll"
   /\ ins = 0 /\ del = 0 /\ waker = FALSE /\ waker2 = FALSE /\ wakeFlag = FALSE /\ r8 = FALSE /\ n6 = 0
   /\ q = 0 /\ sent = 0 /\ cmdSent = FALSE /\ signal = FALSE /\ finished = FALSE
@@ -85,11 +98,29 @@ S0 == /\ Scenario = "stream" /\ pc1 = "a_poll"              \* first try_take_on
       /\ UNCHANGED <<pc0, ins, waker, wakeFlag, r8, n6, q, sent, cmdSent, signal, finished, waker2>> /\ T(1)
 S1 == /\ pc1 = "p1" /\ pc1' = "p2" /\ waker' = TRUE         \* set_waker
       /\ UNCHANGED <<pc0, ins, del, wakeFlag, r8, n6, q, sent, cmdSent, signal, finished, waker2>> /\ T(1)
-S2 == /\ pc1 = "p2"                                         \* second try_take_one
+S2 == /\ ~NoKey /\ pc1 = "p2"                               \* second try_take_one
       /\ IF ins > del THEN del' = del + 1 /\ pc1' = "a_poll" ELSE pc1' = "a_parked" /\ UNCHANGED del
       /\ UNCHANGED <<pc0, ins, waker, wakeFlag, r8, n6, q, sent, cmdSent, signal, finished, waker2>> /\ T(1)
 S3 == /\ pc1 = "a_parked" /\ wakeFlag /\ wakeFlag' = FALSE /\ pc1' = "a_poll"    \* the executor re-polls a woken task
       /\ UNCHANGED <<pc0, ins, del, waker, r8, n6, q, sent, cmdSent, signal, finished, waker2>> /\ T(1)
+
+(* --------------------------- thread 1: async stream of a no_key DataReader *)
+\* del counts the items taken out of the cache (values handed over and disposes skipped).
+\* Skip(d): position after the disposes that follow item d; the wrapper's loop re-enters the keyed poll_next at its
+\* first try_take_one without passing a yield point
+RECURSIVE Skip(_)
+Skip(d) == IF d < ins /\ Kinds[d + 1] = "D" THEN Skip(d + 1) ELSE d
+NK0 == /\ NoKey /\ pc1 = "a_poll"                             \* first try_take_one (after any skipped disposes)
+       /\ LET d2 == Skip(del) IN
+            IF ins > d2 THEN del' = d2 + 1 /\ pc1' = "a_poll" ELSE del' = d2 /\ pc1' = "p1"
+       /\ UNCHANGED <<pc0, ins, waker, wakeFlag, r8, n6, q, sent, cmdSent, signal, finished, waker2>> /\ T(1)
+NK2 == /\ NoKey /\ pc1 = "p2"                                 \* second try_take_one
+       /\ IF ins > del
+            THEN IF Kinds[del + 1] = "V" THEN del' = del + 1 /\ pc1' = "a_poll"
+                 ELSE LET d2 == Skip(del) IN                  \* a dispose: the wrapper polls the keyed stream again
+                      IF ins > d2 THEN del' = d2 + 1 /\ pc1' = "a_poll" ELSE del' = d2 /\ pc1' = "p1"
+            ELSE pc1' = "a_parked" /\ UNCHANGED del
+       /\ UNCHANGED <<pc0, ins, waker, wakeFlag, r8, n6, q, sent, cmdSent, signal, finished, waker2>> /\ T(1)
 
 (* -------------------------------------------------- thread 1: mio consumers *)
 Readable == IF Scenario = "mio6" THEN n6 > 0 ELSE r8
@@ -127,7 +158,7 @@ E1 == /\ pc1 \in {"a1", "e_repoll"}                                     \* Waiti
 E2 == /\ pc1 = "e_parked" /\ wakeFlag /\ wakeFlag' = FALSE /\ pc1' = "e_repoll"
       /\ UNCHANGED <<pc0, ins, del, waker, r8, n6, q, sent, cmdSent, signal, finished, waker2>> /\ T(1)
 
-Next == R0 \/ R1 \/ R2 \/ R3 \/ W0 \/ S0 \/ S1 \/ S2 \/ S3 \/ C0 \/ C1 \/ C2 \/ A0 \/ A1 \/ A2 \/ A3 \/ E0 \/ E1 \/ E2
+Next == R0 \/ R1 \/ R2 \/ R3 \/ W0 \/ S0 \/ S1 \/ S2 \/ S3 \/ NK0 \/ NK2 \/ C0 \/ C1 \/ C2 \/ A0 \/ A1 \/ A2 \/ A3 \/ E0 \/ E1 \/ E2
 Spec == Init /\ [][Next]_vars
 
 (* -------------------------------------------------------------- property *)
@@ -143,5 +174,5 @@ Inv_NoLostWake == ~LostWake
 View == <<pc0, pc1, ins, del, waker, waker2, wakeFlag, r8, n6, q, sent, cmdSent, signal, finished>>
 \* dump the schedule of every behaviour prefix that ends with the producer idle (a quiescent point)
 GenEdge == (GenK > 0 /\ RandomElement(1..GenK) = 1) =>
-             PrintT("REPLAY " \o ToJson([scenario |-> Scenario, n |-> N, sched |-> trail']))
+             PrintT("REPLAY " \o ToJson([scenario |-> Scenario, n |-> N, kinds |-> Kinds, sched |-> trail']))
 =============================================================================
